@@ -366,6 +366,9 @@ func (o *Object) NextElementBytes(dst *Iter) (name []byte, t Type, err error) {
 	dst.tape = o.tape
 	dst.calcNext(false)
 	elemSize := dst.addNext
+	if elemSize < 0 {
+		return nil, TypeNone, errors.New("element has negative offset")
+	}
 	dst.calcNext(true)
 	if dst.off+elemSize > len(dst.tape.Tape) {
 		return nil, TypeNone, errors.New("element extends beyond tape")
